@@ -17,13 +17,14 @@ Dagger(op)              == [op EXCEPT !.dag = ~@]
 
 Symp1Names  == {"Rgate", "Sgate", "Pgate", "Fouriergate"}
 Symp2Names  == {"BSgate", "S2gate", "CXgate", "CZgate", "MZgate"}
+SympNNames  == {"GaussianTransform"}          \* p = <<S>>: an explicit symplectic matrix (local xxpp over the targets)
 DispNames   == {"Dgate", "Xgate", "Zgate"}
 ChanNames   == {"LossChannel", "ThermalLossChannel"}
 PrepNames   == {"Vacuum", "Coherent", "Squeezed", "DisplacedSqueezed", "Thermal"}
 MeasNames   == {"MeasureHomodyne", "MeasureHeterodyne"}
 MetaNames   == {"Del", "New"}
 PassiveNames == {"Rgate", "Fouriergate", "BSgate", "MZgate"}
-UnitaryNames == Symp1Names \cup Symp2Names \cup DispNames
+UnitaryNames == Symp1Names \cup Symp2Names \cup SympNNames \cup DispNames
 
 IsUnitary(op) == op.name \in UnitaryNames
 IsPassive(op) == op.name \in PassiveNames
@@ -42,6 +43,7 @@ Matrix(op) ==
     [] op.name = "S2gate"      -> S2(op.p[1], op.p[2])
     [] op.name = "CXgate"      -> CX(op.p[1])
     [] op.name = "CZgate"      -> CZ(op.p[1])
+    [] op.name = "GaussianTransform" -> op.p[1]
 SympOf(op) == IF op.dag THEN SympInv(Matrix(op)) ELSE Matrix(op)
 
 \* displacement (dx, dp) in kernel units of a displacement-type gate at hbar factor k
@@ -56,7 +58,7 @@ SqCov(q, a) == LET S == Sq(q, a) IN MatMul(S, Transpose(S))
 
 Apply(st, op, k) ==
   LET m == op.modes[1] IN
-  CASE op.name \in Symp1Names \cup Symp2Names -> ApplySymp(st, op.modes, SympOf(op))
+  CASE op.name \in Symp1Names \cup Symp2Names \cup SympNNames -> ApplySymp(st, op.modes, SympOf(op))
     [] op.name \in DispNames -> LET d == DispOf(op, k) IN Displace(st, m, d[1], d[2])
     [] op.name = "LossChannel" -> Attenuate(st, m, op.p[1], RSub(One, RSq(op.p[1])))
     [] op.name = "ThermalLossChannel" ->
